@@ -13,14 +13,24 @@ import sys
 from . import base
 
 
-def run_atheris(pid, seed, scratch, runs=100000, include=("leuvenmapmatching.util",)):
+def run_atheris(pid, seed, scratch, runs=100000, include=("leuvenmapmatching.util",), seed_inputs=0, max_len=512):
     out = os.path.join(scratch, f"fuzz_{pid}.json")
     corpus = os.path.join(scratch, f"corpus_{pid}")
     os.makedirs(corpus, exist_ok=True)
+    if seed_inputs:
+        # fuzz_one_input consumes Hypothesis' choice sequence: large strategies reject short inputs before any instrumented
+        # code runs, so libFuzzer never sees coverage to grow from. Start it from a few long pseudo-random byte strings
+        # (a pure function of VERIF_SEED).
+        import random
+        rng = random.Random(seed * 7919 + 17)
+        for i in range(seed_inputs):
+            with open(os.path.join(corpus, f"seed_{i:02d}"), "wb") as f:
+                f.write(bytes(rng.getrandbits(8) for _ in range(4096)))
     env = dict(os.environ)
     env["PYTHONPATH"] = base.VERIF + os.pathsep + base.DEPS + os.pathsep + env.get("PYTHONPATH", "")
     env.setdefault("PYTHONHASHSEED", "0")
     env["LMM_FUZZ_INCLUDE"] = ",".join(include)
+    env["LMM_FUZZ_MAXLEN"] = str(max_len)
     cmd = [sys.executable, "-m", "lmmverif.fuzz", pid, str(runs), str(seed), corpus, out]
     empty = {"engine": "atheris-unavailable", "evaluations": 0, "classes": {}, "nontrivial": [], "samples": [],
              "excluded": {}, "known_seen": {}, "extra": {"fuzz": "unavailable"}, "failure": None}
@@ -38,7 +48,7 @@ def run_atheris(pid, seed, scratch, runs=100000, include=("leuvenmapmatching.uti
     rep.setdefault("extra", {})["fuzz_runs"] = rep.get("hyp_examples", 0)
     rep["extra"]["fuzz_exit"] = p.returncode
     if rep.get("failure"):
-        rep["failure"]["origin"] = f"atheris -runs={runs} -seed={seed} (empty corpus)"
+        rep["failure"]["origin"] = f"atheris -runs={runs} -seed={seed} ({'empty corpus' if not seed_inputs else str(seed_inputs) + ' pseudo-random seed inputs'})"
     return rep
 
 
@@ -53,6 +63,8 @@ def _child(pid, runs, seed, corpus, out):
         import leuvenmapmatching.matcher.base  # noqa
         import leuvenmapmatching.matcher.distance  # noqa
         import leuvenmapmatching.matcher.simple  # noqa
+        import leuvenmapmatching.map.inmem  # noqa
+        import leuvenmapmatching.map.sqlite  # noqa
     base.load_repo()
     from hypothesis import given, settings, HealthCheck
     from .runner import load_prop
@@ -91,7 +103,7 @@ def _child(pid, runs, seed, corpus, out):
                 dump()
 
     dump()
-    atheris.Setup([sys.argv[0], f"-runs={runs}", f"-seed={seed if seed > 0 else 1}", "-max_len=512",
+    atheris.Setup([sys.argv[0], f"-runs={runs}", f"-seed={seed if seed > 0 else 1}", "-max_len=" + os.environ.get("LMM_FUZZ_MAXLEN", "512"),
                    "-print_final_stats=0", "-verbosity=0", corpus], one)
     atheris.Fuzz()
 
